@@ -74,6 +74,17 @@ def gen_palette():
     for src, what in ((lib, "lib.rs"), (pal, "palette.rs")):
         if not re.search(r"use anstyle::RgbColor as Rgb;", src):
             raise GenError("%s: `use anstyle::RgbColor as Rgb;` not found" % what)
+    # the two scan loops the hand model transcribes: seeded with the first candidate's own distance,
+    # strict `<`, candidates in index order
+    norm = lambda t: re.sub(r"\s+", "", t)
+    want_pal = norm("letmutbest_index=0;letmutbest_distance=crate::distance(color,self.0[best_index]);letmutindex=best_index+1;"
+                    "whileindex<self.0.len(){letdistance=crate::distance(color,self.0[index]);ifdistance<best_distance{best_index=index;best_distance=distance;}index+=1;}")
+    want_xt = norm("letmutbest_index=16;letmutbest_distance=distance(color,XTERM_COLORS[best_index]);letmutindex=best_index+1;"
+                   "whileindex<XTERM_COLORS.len(){letdistance=distance(color,XTERM_COLORS[index]);ifdistance<best_distance{best_index=index;best_distance=distance;}index+=1;}best_index")
+    if want_pal not in norm(pal):
+        raise GenError("palette.rs: the scan loop of find_match no longer has the shape the model transcribes")
+    if want_xt not in norm(lib):
+        raise GenError("lib.rs: the scan loop of find_xterm_match no longer has the shape the model transcribes")
     m = re.search(r"const XTERM_COLORS\s*:\s*\[anstyle::RgbColor;\s*256\]\s*=\s*\[(.*?)\];", lib, re.S)
     if not m:
         raise GenError("XTERM_COLORS not found")
